@@ -36,6 +36,38 @@ def run(tier):
         return [enc.DEFAULT]
 
     st = enc.run(v, cases, binary, combos_for)
+    # ---- "assembling succeeds ... decodes to the written value" whatever the calling thread's errno happens to hold, and whatever an
+    # earlier (rejected) literal left behind: the values strtoul also uses to signal overflow (2^64-1 in every spelling) and the
+    # boundary values, each assembled after errno = ERANGE / EINVAL and after a failing call with a 65-bit literal, must give the
+    # bytes of the same line assembled in a fresh process state
+    special = [c for c in cases if c.get("imm") in (2**64 - 1, -1, 2**63, 2**63 - 1, -(2**63), 0xffffffff, -0x80000000, 0x7fffffff, 0, 0x80)]
+    pick = special[:: max(1, len(special) // (400 if not full else 4000))] + rnd.sample(cases, 100 if not full else 2000)
+    alone = common.run_lines(binary, [(enc.DEFAULT, c["text"], 0) for c in pick], tag="c03e")
+    ecases, emeta = [], []
+    for c, a0 in zip(pick, alone):
+        if "crash" in a0 or a0["rc"] != 0:
+            continue
+        for pre in (["errno 0 34"], ["errno 0 22"], ["asm 0 %s" % common.hx("mov rcx, 0x10000000000000000"), "setoff 0 0"]):
+            ecases.append(["new 0 ext 64 H 0xcc"] + pre + ["asm 0 %s" % common.hx(c["text"]), "getoff 0", "dump 0 0 20"])
+            emeta.append((c, a0["bytes"], pre[0]))
+    eres = common.run_cases(binary, ecases, tag="c03f")
+    errno_ok = 0
+    for (c, want, pre), r in zip(emeta, eres):
+        v.count()
+        cc = {k: x for k, x in c.items() if k not in ("exp", "alt", "nasm")}
+        cc.update({"key": "%s after '%s'" % (c["text"], pre[:20]), "fam": "imm_errno"})
+        if r["crash"]:
+            v.violation(cc, r["crash"]["sig"], r["crash"]["stderr"][-800:])
+            continue
+        a = r["records"][-3].split()
+        d = r["records"][-1].split()[1]
+        if a[1] != "0":
+            v.violation(cc, "rejected-after-errno/earlier-overflow", " ".join(a))
+        elif not d.startswith(want):
+            v.violation(cc, "bytes-differ-after-errno/earlier-overflow", "got %s want %s" % (d[:len(want) + 4], want))
+        else:
+            errno_ok += 1
+    st["ambient_errno_checks_ok"] = errno_ok
     # execution monitor
     plain = common.build("plain")
     ex = exec_cases(rnd, full)
